@@ -13,8 +13,17 @@
 //	bind ssrc=<s> [seq0=<first sequence number>]
 //	phase workload=inorder|loss|dup|reorder|idle ssrc=<s> [rr=<k: round-robin over streams s..s+k-1>] n=<slots> [p=<period>] [fb=<feedback every k slots, 0 = none>]
 //	jump ssrc=<s> d=<the stream's sequence number jumps forward by d>
-//	unbind ssrc=<s>
+//	unbind ssrc=<s> [info=same|ssrc|nofb|noext|reneg]
 //	close
+//
+// `info` selects the StreamInfo handed to Unbind*Stream (default `same`: the very value used at
+// Bind).  A stream is identified by its SSRC: `ssrc` passes a fresh StreamInfo that carries
+// nothing else, `nofb` / `noext` a copy whose RTCP feedback / header-extension list is gone,
+// `reneg` a copy in which everything except the SSRC was renegotiated.  The model's unbind takes
+// the SSRC only (the Lean driver does not even read `info`): the per-stream containers must be
+// released exactly as with the original StreamInfo.  `new kind=nackgen filter=1` installs a
+// GeneratorStreamsFilter with an allow-list that is revoked just before the stream is unbound
+// (a stateful filter whose answer at Unbind differs from the one at Bind).
 //
 // One slot of a phase = one sequence number of the stream: it is delivered (inorder), skipped
 // (loss: every p-th slot), delivered twice (dup: every p-th), or swapped with its neighbour
@@ -53,7 +62,7 @@ type c12Kind interface {
 	bind(ssrc uint32)
 	packet(ssrc uint32, seq uint16, lost bool) // one packet of the stream passes (lost: sender side only, the remote never sees it)
 	feedback()                                 // the kind's feedback event
-	unbind(ssrc uint32)
+	unbind(ssrc uint32, how string)            // how: which StreamInfo is handed to Unbind*Stream, see c12UnbindInfo
 	close()
 	sizes() map[string]int
 }
@@ -89,6 +98,30 @@ func c12Info(ssrc uint32, twccExt bool) *interceptor.StreamInfo {
 		info.RTPHeaderExtensions = []interceptor.RTPHeaderExtension{{URI: c12TwccURI, ID: 1}}
 	}
 	return info
+}
+
+// c12UnbindInfo: the StreamInfo an application hands to Unbind*Stream for a stream it bound with
+// `bound`.  Only the SSRC identifies the stream; everything else may be absent or renegotiated.
+func c12UnbindInfo(bound *interceptor.StreamInfo, how string) *interceptor.StreamInfo {
+	switch how {
+	case "ssrc":
+		return &interceptor.StreamInfo{SSRC: bound.SSRC}
+	case "nofb":
+		c := *bound
+		c.RTCPFeedback = nil
+		return &c
+	case "noext":
+		c := *bound
+		c.RTPHeaderExtensions = nil
+		return &c
+	case "reneg":
+		return &interceptor.StreamInfo{
+			SSRC: bound.SSRC, ClockRate: 48000, PayloadType: 111, MimeType: "audio/opus", Channels: 2,
+			RTCPFeedback:        []interceptor.RTCPFeedback{{Type: "goog-remb"}},
+			RTPHeaderExtensions: []interceptor.RTPHeaderExtension{{URI: "urn:ietf:params:rtp-hdrext:sdes:mid", ID: 9}},
+		}
+	}
+	return bound // "same" (and ops files written before `info=` existed)
 }
 
 var c12Payload = []byte{1, 2, 3, 4}
@@ -127,6 +160,7 @@ type c12Recv struct {
 	sz      func() map[string]int
 	scratch []byte
 	closed  bool
+	revoked map[uint32]bool // nackgen filter=1: SSRCs taken off the allow-list of the streams filter
 }
 
 func newC12Recv(ic interceptor.Interceptor, twccExt bool, sz func() map[string]int) *c12Recv {
@@ -135,6 +169,7 @@ func newC12Recv(ic interceptor.Interceptor, twccExt bool, sz func() map[string]i
 }
 
 func (k *c12Recv) bind(ssrc uint32) {
+	delete(k.revoked, ssrc)
 	f := &c12Feed{}
 	info := c12Info(ssrc, k.twccExt)
 	k.feeds[ssrc], k.infos[ssrc] = f, info
@@ -157,9 +192,12 @@ func (k *c12Recv) packet(ssrc uint32, seq uint16, lost bool) {
 
 func (k *c12Recv) feedback() {}
 
-func (k *c12Recv) unbind(ssrc uint32) {
+func (k *c12Recv) unbind(ssrc uint32, how string) {
 	if info := k.infos[ssrc]; info != nil {
-		k.ic.UnbindRemoteStream(info)
+		if k.revoked != nil {
+			k.revoked[ssrc] = true
+		}
+		k.ic.UnbindRemoteStream(c12UnbindInfo(info, how))
 		delete(k.readers, ssrc)
 	}
 }
@@ -249,9 +287,9 @@ func (k *c12Send) feedback() {
 	_, _, _ = k.rtcpRead.Read(k.scratch, interceptor.Attributes{})
 }
 
-func (k *c12Send) unbind(ssrc uint32) {
+func (k *c12Send) unbind(ssrc uint32, how string) {
 	if info := k.infos[ssrc]; info != nil {
-		k.ic.UnbindLocalStream(info)
+		k.ic.UnbindLocalStream(c12UnbindInfo(info, how))
 		delete(k.writers, ssrc)
 	}
 }
@@ -292,8 +330,8 @@ func (k *c12Adapter) feedback() {
 		}
 	}
 }
-func (k *c12Adapter) unbind(uint32) {}
-func (k *c12Adapter) close()        {}
+func (k *c12Adapter) unbind(uint32, string) {}
+func (k *c12Adapter) close()                {}
 func (k *c12Adapter) sizes() map[string]int {
 	l, m := k.fa.VerifHistoryLen()
 	return map[string]int{"list": l, "map": m}
@@ -310,8 +348,8 @@ func (k *c12Leaky) bind(ssrc uint32) { k.p.AddStream(ssrc, k.sink.rtpWriter()) }
 func (k *c12Leaky) packet(ssrc uint32, seq uint16, _ bool) {
 	_, _ = k.p.Write(c12Header(ssrc, seq, false, 0), c12Payload, nil)
 }
-func (k *c12Leaky) feedback()     {}
-func (k *c12Leaky) unbind(uint32) {}
+func (k *c12Leaky) feedback()             {}
+func (k *c12Leaky) unbind(uint32, string) {}
 func (k *c12Leaky) close() {
 	if !k.closed {
 		k.closed = true
@@ -329,8 +367,14 @@ func c12New(env *c12Env) c12Kind {
 	}
 	switch env.cfg["kind"] {
 	case "nackgen":
-		f, err := nack.NewGeneratorInterceptor(nack.GeneratorSize(uint16(env.nat("size", 512))),
-			nack.GeneratorInterval(ivl), nack.GeneratorMaxNacksPerPacket(uint16(env.nat("max", 0))))
+		opts := []nack.GeneratorOption{nack.GeneratorSize(uint16(env.nat("size", 512))),
+			nack.GeneratorInterval(ivl), nack.GeneratorMaxNacksPerPacket(uint16(env.nat("max", 0)))}
+		var revoked map[uint32]bool
+		if env.nat("filter", 0) == 1 { // a stateful allow-list instead of the default "has nack feedback"
+			revoked = map[uint32]bool{}
+			opts = append(opts, nack.GeneratorStreamsFilter(func(info *interceptor.StreamInfo) bool { return !revoked[info.SSRC] }))
+		}
+		f, err := nack.NewGeneratorInterceptor(opts...)
 		must(err)
 		ic, err := f.NewInterceptor("")
 		must(err)
@@ -338,7 +382,9 @@ func c12New(env *c12Env) c12Kind {
 		if env.nat("writer", 1) == 1 {
 			ic.BindRTCPWriter((&c12Sink{}).rtcpWriter())
 		}
-		return newC12Recv(ic, false, g.VerifSizes)
+		k := newC12Recv(ic, false, g.VerifSizes)
+		k.revoked = revoked
+		return k
 	case "nackresp":
 		f, err := nack.NewResponderInterceptor(nack.ResponderSize(uint16(env.nat("size", 1024))))
 		must(err)
@@ -654,7 +700,7 @@ func runSizes(t *testing.T, ops []string, o *Out) {
 					continue
 				}
 				s := uint32(atoi(m["ssrc"]))
-				k.unbind(s)
+				k.unbind(s, m["info"])
 				delete(bound, s)
 			case "close":
 				if k == nil || closed {
@@ -696,6 +742,7 @@ func genSizes(r *Rng, tier string, idx int) Case {
 	// grow are association lists in the models (quadratic), so those runs stay short; long runs
 	// are for the kinds whose size is bounded.
 	cost := 1 // 0 cheap, 1 medium, 2 growing
+	nackFilter := false
 	switch kind {
 	case "rr", "sr", "nackresp", "ccadapter", "twcc", "flexfec":
 		cost = 0
@@ -705,6 +752,7 @@ func genSizes(r *Rng, tier string, idx int) Case {
 	switch kind {
 	case "nackgen":
 		cfg += fmt.Sprintf(" size=%d ivl=%d max=%d writer=%d", r.Pick(64, 512, 8192), ivl, r.Pick(0, 0, 2, 5), r.Pick(0, 1, 1, 1))
+		nackFilter = true
 	case "nackresp":
 		cfg += fmt.Sprintf(" size=%d", r.Pick(64, 1024, 8192))
 	case "rr", "sr":
@@ -777,13 +825,26 @@ func genSizes(r *Rng, tier string, idx int) Case {
 			ops = append(ops, fmt.Sprintf("phase workload=idle ssrc=1 n=%d fb=%d", r.Pick(300, 1500, 3000), fb))
 		}
 	}
+	// Unbind: the application identifies the stream by its SSRC; what else the StreamInfo carries
+	// (drawn per unbind, for every kind) must not matter for what is released.  The draws come
+	// after everything else of the case, so the traffic of a (seed, index) is what it always was.
+	unbindOp := func(s int) string {
+		how := r.Pick(0, 1, 1, 2, 3, 4)
+		if how == 0 {
+			return fmt.Sprintf("unbind ssrc=%d", s)
+		}
+		return fmt.Sprintf("unbind ssrc=%d info=%s", s, []string{"same", "ssrc", "nofb", "noext", "reneg"}[how])
+	}
 	for s := 1; s <= streams; s++ {
-		ops = append(ops, fmt.Sprintf("unbind ssrc=%d", s))
+		ops = append(ops, unbindOp(s))
 	}
 	if r.Chance(1, 3) {
-		ops = append(ops, "bind ssrc=1", fmt.Sprintf("phase workload=inorder ssrc=1 n=%d fb=%d", n/4, fb), "unbind ssrc=1")
+		ops = append(ops, "bind ssrc=1", fmt.Sprintf("phase workload=inorder ssrc=1 n=%d fb=%d", n/4, fb), unbindOp(1))
 	}
 	ops = append(ops, "close")
+	if nackFilter && r.Chance(1, 3) {
+		ops[0] += " filter=1"
+	}
 	cl := kind
 	if fb == 0 {
 		cl += "-nofb"
